@@ -37,6 +37,8 @@ NO_PATTERN_SOURCES = {
     'use-walrus-if#loop': 'def f(g, c):\n    for _ in c:\n        x = g()\n        if x is None:\n            print(x)\n    try:\n        y = g()\n        if not y:\n            print(y)\n    finally:\n        pass\n',
 }
 SOURCES['order-imports'] = 'import sys\nimport os\n\nx = 1\nimport zlib\nimport abc\nprint(sys, os, zlib, abc, x)\n'
+SOURCES['remove-future-imports'] = 'from __future__ import print_function\nfrom __future__ import division\nfrom __future__ import absolute_import\nimport os\n'
+SOURCES['break-or-continue-out-of-loop'] = 'def f():\n    break  # a\ndef g():\n    continue  # b\ndef h():\n    break  # c\n'
 DONTCARE = {'harden-pickle-load#nested': {3}, 'use-defusedxml#nested': {3}, 'https-connection#nested': {3}}
 
 
